@@ -503,9 +503,6 @@ theorem b_tern (pos : Nat) {c a b : Expr} (hCc : AStmt pf c) (hA : AStmt pf a) (
   obtain ⟨it4, st4, h4, _, _, hj4⟩ := expect_at h3a.at
   obtain ⟨rb, st5, h5, heb, h5a⟩ := hB 0 tb h rest 0 1 k3 (Post b (h :: rest)) st4 hSb
     (Nat.zero_le _) (fun _ => okAfter_else hok) (cont_stop pf (stops_else hok)) hj4.at (by omega)
-  obtain ⟨it6, h6, ht6, _⟩ := peek_at1 h5a
-  have hne : (it6.typ != ItemType.tColon) = true := by
-    have := hok.2; simp [edgeOk] at this; rw [ht6]; simp [this.2.2]
   obtain ⟨r, st7, h7, hQ⟩ := hC (k3 + 1) (.tern c'.pos c' ra rb) st5 (by omega) (by simp [erase, hec, hea, heb]) h5a.at
   have h7' := exprLoop_stop1 pf (F := k3) (p := 0) (e := .tern c'.pos c' ra rb) h5a (stops_else hok)
   rw [h7'] at h7
@@ -515,9 +512,7 @@ theorem b_tern (pos : Nat) {c a b : Expr} (hCc : AStmt pf c) (hA : AStmt pf a) (
   unfold parseTernary
   rw [bind_ok h3]
   have h4' : expect ItemType.tColon st3 = .ok (it4, st4) := h4
-  rw [bind_ok h4', bind_ok h5, bind_ok h6]
-  have hc : (it6.typ == ItemType.tColon) = false := by simpa using hne
-  simp only [hc, Bool.false_eq_true, if_false]
+  rw [bind_ok h4', bind_ok h5]
   rfl
 end
 
